@@ -324,7 +324,7 @@ SUBCHECKS = {
     "collection": SubCheck(
         name="collection",
         describe="BFS over sequences of StreamCollection operations in lock step with a list reference; len/iter/index/contains observed after every step",
-        rule="state = keys->members, sort key, dirty flag, cached order, member sort attributes; non-trivial = state holding >=2 members",
+        rule="state = keys (repr), members in iteration order, key->member map of the reference, sort key, member sort attributes (plus the private dirty flag / cached order while the class keeps them); non-trivial = state holding >=2 members",
         explore=coll_explore, replay=coll_replay,
         bound=lambda t: "all sequences of <=5 of 18 events" if t == "quick" else "all sequences of <=6 of 18 events (expansion of distinct states only)",
     ),
